@@ -10,6 +10,9 @@ import (
 // tinyRun: complete search of a tinyfield system for one input assignment; open
 // inputs (not in vals) are solved for. Returns the sorted set of values the wire
 // `out` takes over all accepting states.
+// errNodeCap: the search for one input was abandoned (too many prover-chosen completions to enumerate).
+var errNodeCap = fmt.Errorf("search node cap hit")
+
 type tinyStats struct {
 	Nodes, Edges, Branches, Survived int64
 }
@@ -30,7 +33,7 @@ func tinyRun(sys *r1csmc.Sys[uint64, r1csmc.Small], vals map[string]uint64, out 
 		return nil, fmt.Errorf("no input wire named %q", out)
 	}
 	seen := map[uint64]bool{}
-	x := &r1csmc.Search[uint64, r1csmc.Small]{S: sys, MaxNodes: 50_000_000}
+	x := &r1csmc.Search[uint64, r1csmc.Small]{S: sys, MaxNodes: 3_000_000}
 	x.Run(init, set, func(w []uint64) bool { seen[w[ow]] = true; return true })
 	if st != nil {
 		st.Nodes += x.Nodes
@@ -42,7 +45,7 @@ func tinyRun(sys *r1csmc.Sys[uint64, r1csmc.Small], vals map[string]uint64, out 
 		return nil, x.Err
 	}
 	if x.Capped {
-		return nil, fmt.Errorf("search node cap hit")
+		return nil, errNodeCap
 	}
 	var res []uint64
 	for v := range seen {
@@ -74,7 +77,7 @@ func tinyRunVec(sys *r1csmc.Sys[uint64, r1csmc.Small], vals map[string]uint64, o
 		ow[i] = w
 	}
 	seen := map[string]bool{}
-	x := &r1csmc.Search[uint64, r1csmc.Small]{S: sys, MaxNodes: 50_000_000}
+	x := &r1csmc.Search[uint64, r1csmc.Small]{S: sys, MaxNodes: 3_000_000}
 	x.Run(init, set, func(w []uint64) bool {
 		b := make([]byte, len(ow))
 		for i, k := range ow {
@@ -96,7 +99,7 @@ func tinyRunVec(sys *r1csmc.Sys[uint64, r1csmc.Small], vals map[string]uint64, o
 		return nil, x.Err
 	}
 	if x.Capped {
-		return nil, fmt.Errorf("search node cap hit")
+		return nil, errNodeCap
 	}
 	var res []string
 	for v := range seen {
